@@ -90,7 +90,7 @@ PROPS = {
         "explanation": "theorems usartSend_exact, canSend_exact, serialSend_exact, writeAll_spec + real try_send_packet against scripted devices; device log (digest), flush count and result compared; a differing line is a concrete C14 violation (model = wire image)",
     },
     "C15": {"groups": {"proto": Q(160000, 1500000)}, "rule": None, "explanation": "theorems dispatch_spec, tick_spec (+ reach_sorted for the handler table) + the real Protocol over a scripted Interface"},
-    "C16": {"groups": {"proto": Q(160000, 1500000)}, "rule": None, "explanation": "theorem sendPacket_spec + the real Protocol over a scripted Interface"},
+    "C16": {"groups": {"proto": Q(160000, 1500000), "psend_usart": Q(20000, 200000), "psend_can": Q(20000, 200000), "psend_serial": Q(20000, 200000)}, "rule": None, "explanation": "theorem sendPacket_spec + the real Protocol over a scripted Interface"},
     "C17": {"groups": {"proto": Q(160000, 1500000)}, "rule": None, "explanation": "theorems nextId_fresh, add_spec, remove_spec, reach_sorted, removed_never_called + the real Protocol over a scripted Interface"},
     "C18": {"groups": {"proto": Q(160000, 1500000)}, "rule": None, "explanation": "theorems exchangeLoop_first/timeout/error, exchangeAllLoop_spec, exchange_prefix + the real exchange_packet / exchange_packets instantiated for all 16 event types"},
     "C19": {
@@ -136,6 +136,8 @@ def nontrivial(group, inp, obs):
         return len(t[1].split(":")[-1]) >= 4
     if g.startswith("rx"):
         return sum(1 for x in obs.split(",") if not x.startswith("nothing")) >= 3
+    if g.startswith("psend"):
+        return t[4] != "-"
     if g.startswith("tx"):
         m = re.search(r"x(\d+)$", t[2])
         return (bool(m) and int(m.group(1)) > 8) or t[3] != "-"
